@@ -126,12 +126,18 @@ def jRes (j : Json) : ParseResult :=
   | "none" => .notThisClass
   | "obj" => .obj (jInst ((obj? j "o").getD Json.null))
   | _ => .raised
+def qnameJ (q : QName) : Json :=
+  jarr [match q.ns with | some n => Json.str (ofCode n) | none => Json.null, Json.str (ofCode q.name)]
+def jQName (j : Json) : QName :=
+  let q := asArr j
+  { ns := match q[0]? with | some (Json.str s) => some (toCode s) | _ => none,
+    name := match q[1]? with | some (Json.str s) => toCode s | _ => 0 }
 def rtJ : RtOut → Json
   | .raised => Json.mkObj [("r", "raised")]
-  | .obj o same => Json.mkObj [("r", "obj"), ("o", instJ o), ("same", same)]
+  | .obj o same tags => Json.mkObj [("r", "obj"), ("o", instJ o), ("same", same), ("order", jarr (tags.map qnameJ))]
 def jRt (j : Json) : RtOut :=
   match strD j "r" with
-  | "obj" => .obj (jInst ((obj? j "o").getD Json.null)) (boolD j "same")
+  | "obj" => .obj (jInst ((obj? j "o").getD Json.null)) (boolD j "same") ((arrD j "order").map jQName)
   | _ => .raised
 
 def handle (line : Json) : Json :=
@@ -147,11 +153,11 @@ def handle (line : Json) : Json :=
     let clean := wireClean E i
     let x := wire (serialise T i)
     let br := branchesNode E i.cls x (wireBranches (serialise T i) [])
-    let path := "rt/" ++ (match m with | .raised => "raised" | .obj _ _ => if specRoundTrip i m then "unchanged" else "changed") ++
+    let path := "rt/" ++ (match m with | .raised => "raised" | .obj _ _ _ => if specRoundTrip T i m then "unchanged" else "changed") ++
       (if !shape then "/outside-instance-space" else if wf && clean then "/wf" else
         (if !wf then "/default-unset" else "") ++ (if !clean then "/not-wire-clean" else ""))
     Json.mkObj [("model", rtJ m), ("path", path), ("branches", jstrs br),
-      ("spec_model", specRoundTrip i m), ("spec_impl", specRoundTrip i (jRt impl)),
+      ("spec_model", specRoundTrip T i m), ("spec_impl", specRoundTrip T i (jRt impl)),
       ("why", Json.mkObj [("shape", shape), ("treeWf", wf), ("wireClean", clean)])]
   | "parse" =>
     let cls := natD c "cls"
